@@ -451,6 +451,14 @@ class BlackbirdProgram:
                             "{}={}{}{}j".format(k, v.real, "+-"[int(v.imag < 0)], np.abs(v.imag))
                         )
 
+                    elif isinstance(v, sym.Expr):
+                        # kwarg contains free parameters
+                        res = str(v)
+                        for p in v.free_symbols:
+                            res = res.replace(str(p), "{"+str(p)+"}")
+
+                        kwargs.append("{}={}".format(k, res))
+
                     else:
                         kwargs.append("{}={}".format(k, v))
 
